@@ -857,3 +857,131 @@ Proof.
       try (updcase i0 i; [|left; reflexivity]); ssimpl; try (left; reflexivity); try (left; lia).
     all: right; split; [lia|reflexivity].
 Qed.
+
+(** * Non-vacuity: a concrete interleaving
+
+    One submission slot, two future threads, three operations. Thread 1 polls operation 0 (waker 1,
+    submitted), polls operation 1 and finds the queue full; while it is on its way to the blocked
+    list the ring thread enters the kernel (operation 0 is consumed and completes); thread 1 parks
+    waker 2, re-polls operation 0 with waker 3 (replacing waker 1); the ring thread's
+    [wake_blocked_futures] wakes waker 2, its dispatch wakes waker 3 — the latest —; thread 2
+    submits operation 2 and drops it with the queue full (no cancel request); thread 1 takes the
+    result of operation 0 and drops it; the ring thread reaps operation 2 and frees its state. *)
+Definition ex_progs : list (list call) :=
+  [[Poll 0 1%N; Poll 1 2%N; Yield; Poll 0 3%N; Poll 0 4%N; DropOp 0]; [Poll 2 5%N; DropOp 2]].
+Definition ex_mid : list ev :=
+  repeat (T 1) 8 ++ repeat (T 1) 3 ++ repeat (T 0) 5 ++ [T 1; T 1; T 1] ++ repeat (T 0) 4 ++ repeat (T 0) 3.
+Definition ex_all : list ev :=
+  ex_mid ++ repeat (T 0) 4 ++ repeat (T 2) 8 ++ repeat (T 2) 3 ++ [T 1; T 1]
+         ++ repeat (T 0) 5 ++ repeat (T 0) 4 ++ repeat (T 0) 3 ++ repeat (T 0) 4.
+
+Ltac uses_inv H :=
+  let c := fresh "c" in let Hin := fresh "Hin" in let Hm := fresh "Hm" in
+  destruct H as [c [Hin Hm]]; cbn [In] in Hin;
+  repeat (destruct Hin as [Hin|Hin]; [subst c; cbn [mentions] in Hm|]); try contradiction.
+
+Lemma ex_progs_ok : progs_ok ex_progs.
+Proof.
+  split.
+  - intros [|[|t]]; cbn [nth ex_progs linear]; repeat split; try exact I;
+      try (intros H; uses_inv H; discriminate). destruct t; exact I.
+  - intros t1 t2 i H1 H2.
+    destruct t1 as [|[|t1]]; destruct t2 as [|[|t2]]; try reflexivity; cbn [nth ex_progs] in H1, H2;
+      try (exfalso; destruct t1; exact (uses_nil _ H1)); try (exfalso; destruct t2; exact (uses_nil _ H2));
+      exfalso; uses_inv H1; uses_inv H2;
+      repeat match goal with H : (_ =? _) = true |- _ => apply Nat.eqb_eq in H end; try discriminate; congruence.
+Qed.
+
+Example race_example :
+  progs_ok ex_progs
+  /\ (let s := fst (run step (init 1%N true [] 3 ex_progs) ex_mid) in
+      (* hypotheses of the wake-up theorem: the latest waker of operation 0 is 3, its completion was dispatched *)
+      g_lastw (ops s 0) = Some 3%N /\ o_st (ops s 0) = Done /\ g_woken (ops s 0) = true
+      /\ g_parked s = [2%N] /\ g_bwoken s = [2%N] /\ blocked s = [])
+  /\ (let r := run step (init 1%N true [] 3 ex_progs) ex_all in
+      snd r = [OPending 0 1%N; OConsumed (Submit 0); OParked 1 2%N; OPending 0 3%N; OWakeB 2%N; OWake 3%N;
+               OPending 2 5%N; OReady 0; OFree 0 true; OConsumed (Submit 2); OFree 2 true]
+      /\ o_st (ops (fst r) 2) = Dropped /\ o_alloc (ops (fst r) 2) = false /\ g_frees (ops (fst r) 2) = 1
+      /\ g_cancels (ops (fst r) 2) = 0 /\ g_frees (ops (fst r) 0) = 1 /\ g_bad (fst r) = false).
+Proof. split; [exact ex_progs_ok|]. split; vm_compute; repeat split; reflexivity. Qed.
+
+(** * The code before the repair of H15 loses a parked waker
+
+    [step_h15]: [Completions::poll] does not end with [wake_blocked_futures]. One slot; a future
+    finds the queue full and is on its way to the blocked list when the ring thread's poll enters
+    the kernel (the queue is consumed, [wake_blocked_futures] finds the list empty), processes the
+    completion and returns; then the waker is parked. From then on the queue is empty (there IS
+    room), and whatever number of further ring polls are made — each enters the kernel, nothing
+    to submit, nothing to reap, ETIME, no [wake_blocked_futures] — the waker stays parked and
+    nothing is woken. *)
+Definition quiet (s : sys) : Prop :=
+  cq s = [] /\ sq s = [] /\ r_n s = 0
+  /\ match r_pc s with RWbH | RWbT | RWbTry | RWbLock | RDisp | RDispSpin => False | _ => True end.
+
+Lemma quiet_step s : quiet s ->
+  quiet (fst (step_h15 s (T 0))) /\ snd (step_h15 s (T 0)) = [] /\ blocked (fst (step_h15 s (T 0))) = blocked s.
+Proof.
+  intros [Hcq [Hsq [Hn Hpc]]]. unfold quiet, step_h15, step_with, rstep_with.
+  destruct (r_pc s) eqn:E; try contradiction.
+  - destruct (r_polls s); ssimpl; rewrite ?E; auto.
+  - rewrite Hcq. ssimpl. auto.
+  - ssimpl. auto.
+  - ssimpl. auto.
+  - unfold enter. rewrite Hsq. cbn [length N.of_nat]. rewrite N.min_0_r. cbn [N.to_nat firstn skipn fold_left map].
+    ssimpl. rewrite Hcq. cbn [length Nat.eqb negb orb]. ssimpl. auto.
+  - ssimpl. auto.
+  - unfold begin_dispatch, advance. ssimpl. rewrite Hcq. cbn [length skip_book]. ssimpl. auto.
+  - ssimpl. auto.
+Qed.
+
+Lemma quiet_forever k : forall s, quiet s ->
+  blocked (fst (run step_h15 s (repeat (T 0) k))) = blocked s /\ snd (run step_h15 s (repeat (T 0) k)) = [].
+Proof.
+  induction k as [|k IH]; intros s Hq; cbn [repeat run]; [split; reflexivity|].
+  destruct (quiet_step s Hq) as [Hq' [Ho Hb]].
+  destruct (step_h15 s (T 0)) as [s1 o1]. cbn [fst snd] in Hq', Ho, Hb.
+  destruct (IH s1 Hq') as [Hb2 Ho2]. destruct (run step_h15 s1 (repeat (T 0) k)) as [s2 o2].
+  cbn [fst snd] in *. subst o1 o2. split; [congruence|reflexivity].
+Qed.
+
+Definition h15_progs : list (list call) := [[Poll 0 1%N; Poll 1 2%N]].
+Definition h15_events : list ev :=
+  repeat (T 1) 8 ++ repeat (T 1) 3 ++ repeat (T 0) 5 ++ repeat (T 0) 3 ++ repeat (T 0) 4 ++ [T 1].
+
+Definition race_parked_waker_h15_lost : Prop :=
+  exists progs es w, progs_ok progs /\
+    forall further_polls,
+      let s := fst (run step_h15 (init 1%N true [] (1 + further_polls) progs) es) in
+      blocked s = [w] /\ sq s = [] /\ r_polls s = further_polls /\ r_pc s = RIdle
+      /\ forall k, blocked (fst (run step_h15 s (repeat (T 0) k))) = [w]
+                   /\ snd (run step_h15 s (repeat (T 0) k)) = [].
+
+Lemma h15_progs_ok : progs_ok h15_progs.
+Proof.
+  split.
+  - intros [|t]; cbn [nth h15_progs linear]; repeat split; try exact I. destruct t; exact I.
+  - intros t1 t2 i H1 H2.
+    destruct t1 as [|t1]; destruct t2 as [|t2]; try reflexivity; cbn [nth h15_progs] in H1, H2;
+      try (exfalso; destruct t1; exact (uses_nil _ H1)); try (exfalso; destruct t2; exact (uses_nil _ H2)).
+Qed.
+
+Lemma race_parked_waker_h15_lost_holds : race_parked_waker_h15_lost.
+Proof.
+  exists h15_progs, h15_events, 2%N. split; [exact h15_progs_ok|].
+  intros fp s.
+  assert (Hq : quiet s) by (unfold quiet; vm_compute; repeat split; exact I).
+  assert (Hb : blocked s = [2%N]) by (vm_compute; reflexivity).
+  split; [exact Hb|]. split; [vm_compute; reflexivity|]. split; [vm_compute; reflexivity|].
+  split; [vm_compute; reflexivity|].
+  intros k. destruct (quiet_forever k s Hq) as [H1 H2]. rewrite H1. split; [exact Hb|exact H2].
+Qed.
+
+(** With the repaired code the very next poll wakes it (same interleaving, [step]). *)
+Example race_parked_waker_fixed_is_woken :
+  let s := fst (run step (init 1%N true [] 2 h15_progs)
+                    (repeat (T 1) 8 ++ repeat (T 1) 3 ++ repeat (T 0) 5 ++ repeat (T 0) 3 ++ repeat (T 0) 4
+                     ++ repeat (T 0) 3 ++ [T 1])) in
+  blocked s = [2%N] /\ r_pc s = RIdle
+  /\ snd (run step s (repeat (T 0) 11)) = [OWakeB 2%N]
+  /\ blocked (fst (run step s (repeat (T 0) 11))) = [].
+Proof. vm_compute. repeat split; reflexivity. Qed.
